@@ -327,7 +327,7 @@ func cmdCheck(args []string) int {
 		extra := map[string]interface{}{}
 		suffix := ""
 		replayed := false
-		if st == "failed" && !ob.Structural && !ob.WantSat {
+		if !ob.WantSat {
 			replayed = tryReplay(e, ob, extra)
 		}
 		if !replayed {
@@ -337,7 +337,7 @@ func cmdCheck(args []string) int {
 			extra["vacuous"] = true
 		}
 		path := writeReplay(pdir, prop, ob, extra)
-		line := fmt.Sprintf("VIOLATION property=%s replay=%s obligation=%s (%s)%s", prop, path, ob.Name, st, suffix)
+		line := fmt.Sprintf("VIOLATION property=%s replay=%s obligation=%s (%s) failing-input-replayed: %v", prop, path, ob.Name, st, extra["replay_cmd"])
 		// the brief: the line ends with the words no-failing-input-found when there is no replayed input
 		if suffix != "" {
 			line = fmt.Sprintf("VIOLATION property=%s replay=%s obligation=%s (%s) no-failing-input-found", prop, path, ob.Name, st)
@@ -350,6 +350,21 @@ func cmdCheck(args []string) int {
 		if ob.Note != "" {
 			fmt.Printf("    note: %s\n", ob.Note)
 		}
+	}
+	if *only == "" {
+		bl, bv := runBounded(e, prop, *tier, *replayDir)
+		for _, l := range bl {
+			fmt.Println(l)
+		}
+		for _, v := range bv {
+			fmt.Println(v)
+			cr.Violations = append(cr.Violations, v)
+			nfail++
+		}
+		if bl == nil {
+			bl = []string{}
+		}
+		cr.Extra["bounded"] = bl
 	}
 	cr.Wall = time.Since(start).Seconds()
 	if !*noEvidence && *only == "" {
